@@ -5,9 +5,10 @@ use crate::wire::*;
 pub fn widths(c: Class) -> &'static [usize] {
     match c {
         Class::Unsigned | Class::Signed => &[1, 2, 3, 4, 8, 16],
-        Class::Str => &[0, 1, 4, 17],
-        Class::Vec => &[0, 1, 3, 7],
-        Class::Unknown => &[1, 3, 7],
+        // 255 / 256: the lengths at which a one-byte length and the variable-length escape value meet
+        Class::Str => &[0, 1, 4, 17, 255, 256],
+        Class::Vec => &[0, 1, 3, 7, 255],
+        Class::Unknown => &[1, 3, 7, 255, 256],
         Class::F64 => &[8],
         Class::DurS | Class::DurMs | Class::DurUs | Class::DurNs => &[4, 8],
         Class::Ip4 => &[4],
@@ -56,6 +57,27 @@ pub fn values(c: Class, w: usize) -> Vec<Vec<u8>> {
         }
     }
     match c {
+        Class::Ip4 => {
+            for a in [[127u8, 0, 0, 1], [10, 0, 0, 1], [224, 0, 0, 1], [192, 168, 1, 255], [169, 254, 0, 1], [100, 64, 0, 1]] {
+                v.push(a.to_vec());
+            }
+        }
+        Class::Ip6 => {
+            let mk = |head: &[u8], tail: &[u8]| -> Vec<u8> {
+                let mut a = vec![0u8; 16];
+                a[..head.len()].copy_from_slice(head);
+                a[16 - tail.len()..].copy_from_slice(tail);
+                a
+            };
+            v.push(mk(&[], &[0xff, 0xff, 192, 0, 2, 1])); // IPv4-mapped ::ffff:192.0.2.1
+            v.push(mk(&[], &[0xff, 0xff, 0, 0, 0, 0])); // ::ffff:0.0.0.0
+            v.push(mk(&[], &[192, 0, 2, 1])); // IPv4-compatible ::192.0.2.1
+            v.push(mk(&[0x00, 0x64, 0xff, 0x9b], &[192, 0, 2, 1])); // NAT64 64:ff9b::192.0.2.1
+            v.push(mk(&[0xfe, 0x80], &[1])); // link-local
+            v.push(mk(&[0xff, 0x02], &[1])); // multicast
+            v.push(mk(&[0x20, 0x01, 0x0d, 0xb8], &[1])); // documentation
+            v.push(mk(&[0x20, 0x02, 192, 0, 2, 1], &[1])); // 6to4
+        }
         Class::Proto => {
             v = (0..=255u8).map(|x| vec![x]).collect();
         }
